@@ -213,11 +213,30 @@ func c15Strict(exp []c15Exp, got []c15Block) string {
 func c15Find(c *c15Case, md string, only map[int]bool) *c15Mismatch {
 	blocks := c15ReadMd(md)
 	plain := strings.ReplaceAll(md, "\\|", "|")
+	// every occurrence of a word in the source must be in the output: the n-th element that
+	// carries a word needs at least n occurrences of it
+	needed := map[string]int{}
 	lost := func(w string) *c15Mismatch {
-		if w != "" && !strings.Contains(plain, w) {
-			return &c15Mismatch{"text-lost", "", fmt.Sprintf("the word %q of the source is not in the Markdown output", w)}
+		if w == "" {
+			return nil
+		}
+		needed[w]++
+		if have := strings.Count(plain, w); have < needed[w] {
+			if have == 0 {
+				return &c15Mismatch{"text-lost", "", fmt.Sprintf("the word %q of the source is not in the Markdown output", w)}
+			}
+			return &c15Mismatch{"text-lost", "repeat", fmt.Sprintf("the word %q occurs %d times in the source elements rendered so far but only %d times in the Markdown output", w, needed[w], have)}
 		}
 		return nil
+	}
+	// headings are matched in document order: the n-th source heading with a given text is the
+	// n-th ATX heading with that text (equal heading texts may repeat in a document)
+	hfrom := 0
+	hwant := map[string]int{}
+	for n, e := range c.Exp {
+		if e.T == "heading" && (only == nil || only[n]) {
+			hwant[e.S]++
+		}
 	}
 	from := 0
 	for n, e := range c.Exp {
@@ -235,13 +254,19 @@ func c15Find(c *c15Case, md string, only map[int]bool) *c15Mismatch {
 				return m
 			}
 			found := -1
-			for i, b := range blocks {
-				if b.T == "heading" && c15HasWord(b.S, e.S) {
+			for i := hfrom; i < len(blocks); i++ {
+				if blocks[i].T == "heading" && c15HasWord(blocks[i].S, e.S) {
 					found = i
 					break
 				}
 			}
 			feat := c15HeadingFeature(c, el)
+			if hwant[e.S] > 1 {
+				feat = "repeat"
+			}
+			if found >= 0 {
+				hfrom = found + 1
+			}
 			if found < 0 {
 				return &c15Mismatch{"heading-missing", feat, fmt.Sprintf("heading %q (source level %d, offset %d, max %d) is not an ATX heading of level 1..6 in the output", e.S, el.Level, c.Off, c.Mx)}
 			}
@@ -260,6 +285,9 @@ func c15Find(c *c15Case, md string, only map[int]bool) *c15Mismatch {
 					continue
 				}
 				for j, it := range b.Items {
+					if strings.HasPrefix(strings.TrimSpace(it.W), "[") {
+						continue // an entry of a table of contents, not a source item
+					}
 					if c15HasWord(it.W, e.Items[0].W) {
 						bi, ii = i, j
 						break
@@ -332,8 +360,21 @@ func c15Find(c *c15Case, md string, only map[int]bool) *c15Mismatch {
 			}
 		}
 	}
+	// count preserved: no source heading comes out twice
+	for w, want := range hwant {
+		got := 0
+		for _, b := range blocks {
+			if b.T == "heading" && c15HasWord(b.S, w) {
+				got++
+			}
+		}
+		if got > want {
+			return &c15Mismatch{"heading-extra", "repeat", fmt.Sprintf("%d ATX headings carry the text %q, the source has %d", got, w, want)}
+		}
+	}
 	return nil
 }
+
 
 func c15KindName(k string) string {
 	if k == "o" {
